@@ -26,7 +26,7 @@ MEM_BASE, MEM_PER_BYTE = 256 << 20, 64
 CPU_BASE, CPU_PER_BYTE = 20.0, 100e-6
 PROBES = ["limit_file_size_exact", "limit_file_size_disabled", "limit_file_grows_after_call", "limit_7z_archive_size", "limit_member_zip", "limit_member_tar",
           "limit_member_7z", "limit_member_duplicate_names", "limit_member_tar_hardlink_to_oversize", "amp_ods_repeat", "amp_odf_text_space_count", "amp_xlsx_dimension", "amp_entities", "amp_deep_nesting",
-          "amp_ratio_member", "amp_mbox_many_from", "amp_7z_lying_unpack_size", "amp_pdf_object_loop", "amp_count_field_fault", "memory_error_under_cap", "scaling_pair"]
+          "amp_ratio_member", "amp_mbox_many_from", "amp_7z_lying_unpack_size", "amp_pdf_object_loop", "amp_ole_nested_containers", "amp_count_field_fault", "memory_error_under_cap", "scaling_pair"]
 RULE = ("limit runs: files / archives / members of size L-1, L, L+1 around every explicit limit (max_file_size incl. 0 and a file that grows between "
         "call and consumption, the 100 MiB 7z limit, the per-member knob N in ZIP/TAR/7z incl. duplicate names) with the I/O event log proving "
         "that refused or skipped data was never opened, decompressed or written; amplifier runs: small documents built to amplify (ODS repeats, "
@@ -88,7 +88,7 @@ def gen_case(rng: random.Random, tier: str) -> dict:
             c["link_to_big"] = rng.random() < 0.4
         return c
     if r < 0.62:
-        fam = rng.choice(["ods_repeat", "ods_repeat", "ods_repeat", "text_space", "xlsx_dimension", "entities", "deep", "ratio_member", "mbox_from", "lying_7z", "pdf_loop", "pdf_loop"])
+        fam = rng.choice(["ods_repeat", "ods_repeat", "ods_repeat", "text_space", "xlsx_dimension", "entities", "deep", "ratio_member", "mbox_from", "lying_7z", "pdf_loop", "pdf_loop", "ole_nested"])
         c = {"mode": "amp", "family": fam}
         if fam == "ods_repeat":
             c.update({"row_empty": rng.random() < 0.5, "cell_empty": rng.random() < 0.5, "cell_repeat": rng.choice([1, 3, 100, 101] + BIGS),
@@ -112,15 +112,18 @@ def gen_case(rng: random.Random, tier: str) -> dict:
             c.update({"fmt": rng.choice(["tar.gz", "tar.xz", "7z", "zip"]), "mb": rng.choice([5, 40, 150]), "ext": rng.choice(["txt", "bin"])})
         elif fam == "pdf_loop":
             c.update({"variant": rng.choice(PDF_LOOPS)})
+        elif fam == "ole_nested":
+            c.update({"stream": rng.choice(["PowerPoint Document", "PowerPoint Document", "Pictures"]), "rtype": rng.choice(OLE_CONTAINER_TYPES),
+                      "depth": rng.choice([300, 1400, 5600, 27000])})
         elif fam == "lying_7z":
             c.update({"mb": rng.choice([300, 500]) if tier != "quick" else 300, "method": rng.choice(["lzma", "lzma2"]), "declared": rng.choice([10, 1000])})
         else:
             c.update({"n": rng.choice([100, 5000, 30000])})
         return c
     if r < 0.70:
-        fam = rng.choice(["mbox_from", "mbox_from", "deep_html", "deep_rtf", "deep_json", "deep_odt", "deep_docx", "soup_html", "html_rows", "docx_paragraphs", "rtf_paragraphs",
+        fam = rng.choice(["mbox_from", "mbox_from", "deep_html", "deep_rtf", "deep_json", "deep_odt", "deep_docx", "soup_html", "deep_ppt", "html_rows", "docx_paragraphs", "rtf_paragraphs",
                           "odt_paragraphs", "csv_rows", "zip_members"])
-        base = {"mbox_from": [20000, 30000], "deep_html": [100, 200], "deep_rtf": [150, 400], "deep_json": [200, 230], "deep_odt": [100, 200], "deep_docx": [60, 100], "soup_html": [2000, 4000],
+        base = {"mbox_from": [20000, 30000], "deep_html": [100, 200], "deep_rtf": [150, 400], "deep_json": [200, 230], "deep_odt": [100, 200], "deep_docx": [60, 100], "soup_html": [2000, 4000], "deep_ppt": [700, 1400],
                 "html_rows": [3000, 6000], "docx_paragraphs": [3000, 6000], "rtf_paragraphs": [3000, 6000], "odt_paragraphs": [3000, 6000], "csv_rows": [20000, 50000],
                 "zip_members": [400, 800]}[fam]
         return {"mode": "scaling", "family": fam, "n": rng.choice(base), "factor": 4}
@@ -260,6 +263,9 @@ def build_amp(c) -> tuple[bytes, str, int]:
     if fam == "pdf_loop":
         d = build_pdf_loop(c["variant"])
         return d, "amp.pdf", len(d)
+    if fam == "ole_nested":
+        d = build_ole_nested(c["stream"], c["rtype"], c["depth"])
+        return d, "amp.ppt", len(d)
     if fam == "lying_7z":
         # a folder whose stream expands far beyond the unpack size its header declares
         from ..sevenz_writer import write_7z
@@ -323,6 +329,27 @@ def build_pdf_loop(variant: str) -> bytes:
     return _mini_pdf(objs)
 
 
+OLE_CONTAINER_TYPES = [0x0FF0, 0x03E8, 0x03EE, 0x03F0, 0x0FF5, 0xF002, 0xF003, 0xF004, 0x040C, 0x1388]
+
+
+def build_ole_nested(stream: str, rtype: int, depth: int) -> bytes:
+    """a PPT (valid OLE2 shell of a fixture) whose record stream is rewritten in place as `depth` containers nested in each other
+    (8 bytes each, every one spanning the rest); the stream keeps its length, the remainder is zero-filled"""
+    import struct
+    import olefile
+    src = _docs["fx/legacy_ms/eurouni2.ppt"]
+    bio = io.BytesIO(src)
+    ole = olefile.OleFileIO(bio, write_mode=True)
+    n = ole.get_size(stream)
+    depth = max(1, min(depth, n // 8))
+    b = bytearray(n)
+    for i in range(depth):
+        struct.pack_into("<HHI", b, 8 * i, 0x000F, rtype if (i or rtype != 0x0FF0) else 0x03E8, 8 * (depth - i - 1))
+    ole.write_stream(stream, bytes(b))
+    ole.close()
+    return bio.getvalue()
+
+
 PDF_LOOPS = ["plain", "pages_self_cycle", "pages_two_cycle", "xobject_self_recursion", "contents_array_cycle", "outline_cycle", "huge_count", "indirect_length_cycle"]
 
 
@@ -330,6 +357,8 @@ def build_scaling(fam: str, n: int) -> tuple[bytes, str]:
     if fam == "mbox_from":
         one = b"From a@example.org Tue Jan  2 03:04:05 2024\n"
         return one * n + b"From: a@example.org\nSubject: s\nDate: Tue, 02 Jan 2024 03:04:05 +0000\n\nbody\n", "s.mbox"
+    if fam == "deep_ppt":
+        return build_ole_nested("PowerPoint Document", 0x0FF0, n), "s.ppt"
     if fam == "soup_html":
         d, route, _u = build_amp({"family": "deep", "fmt": "html", "depth": n, "shape": "unmatched_end"})
         return d, route
@@ -475,6 +504,8 @@ def _family_sig(case) -> str:
             return f"lying_7z|{case['method']}"
         if f == "pdf_loop":
             return f"pdf_loop|{case['variant']}"
+        if f == "ole_nested":
+            return f"ole_nested|{case['stream'].split()[0]}|{case['rtype']:#06x}|{'deep' if case['depth'] > 1400 else 'shallow'}"
         if f == "ratio_member":
             return f"ratio_member|{case['fmt']}|{case['ext']}"
         return f
@@ -723,7 +754,7 @@ def run_case(case: dict) -> dict:
     elif case["mode"] == "amp":
         data, route, U = build_amp(case)
         probes[{"ods_repeat": "amp_ods_repeat", "text_space": "amp_odf_text_space_count", "xlsx_dimension": "amp_xlsx_dimension", "entities": "amp_entities",
-                "deep": "amp_deep_nesting", "ratio_member": "amp_ratio_member", "mbox_from": "amp_mbox_many_from", "lying_7z": "amp_7z_lying_unpack_size", "pdf_loop": "amp_pdf_object_loop"}[case["family"]]] = 1
+                "deep": "amp_deep_nesting", "ratio_member": "amp_ratio_member", "mbox_from": "amp_mbox_many_from", "lying_7z": "amp_7z_lying_unpack_size", "pdf_loop": "amp_pdf_object_loop", "ole_nested": "amp_ole_nested_containers"}[case["family"]]] = 1
         outcome, peak, cpu = _run_budgeted(case, data, route, U, viol, probes, log)
         nontriv = [f"{_family_sig(case)}|{outcome.split(':')[0]}"]
         faults[case["family"]] = 1
